@@ -120,13 +120,47 @@ def build(tier="quick", seed=0):
                             replay=lambda w, opts=opts, history=history: {"call": "c20_csv", "args": {"opts": {k: (",".join(v) if isinstance(v, list) else v) for k, v in opts.items()}, "history": history, "s": w.get("s") if isinstance(w.get("s"), str) else "v"}},
                             functions=FU, mode="representative type histories and option sets, symbolic integer / text cells"))
 
+    # a grouped record is rendered through its flat view: for a field that several members have (always the reserved ones) the FIRST member's value
+    for opts in ({}, {"fields": "_source,s,n"}):
+        name = f"C20.csv[{opts or 'defaults'}, a grouped record whose members differ in shared fields]"
+
+        def th_g(opts=opts):
+            fs("/abs/out.csv")
+            A = it.call(RD, ["c20/a", [("varint", "n"), ("string", "s")]], {})
+            B = it.call(RD, ["c20/b", [("string", "s"), ("varint", "k")]], {})
+            first = it.call(A, [], {"n": SInt(x), "s": SStr(sv), "_source": "first", "_generated": GEN})
+            g = it.call(base.g["GroupedRecord"], ["c20/grp", [first, it.call(B, [], {"s": "other", "k": 2, "_source": "second", "_generated": GEN})]], {})
+            w = it.call(cs.g["CsvfileWriter"], ["/abs/out.csv"], dict(opts))
+            it.call(it.getattr_(w, "write"), [g], {})
+            it.call(it.getattr_(w, "close"), [], {})
+            return it.vfs["/abs/out.csv"].content(), first
+
+        def judge_g(p, opts=opts):
+            segs, first = p.value
+            if len(segs) != 2 or not segs[0].header or segs[1].header:
+                return False, f"output {segs!r:.200}"
+            want_head = opts["fields"].split(",") if opts.get("fields") else ["n", "s", "k", "_source", "_classification", "_generated", "_version"]
+            if (segs[0].cells != want_head) if opts.get("fields") else (sorted(segs[0].cells) != sorted(want_head) or [c for c in segs[0].cells if not c.startswith("_")] != ["n", "s", "k"]):
+                return False, f"header {segs[0].cells}, expected the fields {want_head}"
+            row = dict(zip(segs[0].cells, segs[1].cells))
+            if it.unbase(row["_source"]) != "first":
+                return False, f"cell _source is {it.unbase(row['_source'])!r}, the grouped record's _source is 'first'"
+            gs, why = obs_eq(deep_obs(it, first.attrs["s"]), deep_obs(it, row["s"]), "s")
+            gn, why2 = obs_eq(deep_obs(it, first.attrs["n"]), deep_obs(it, row["n"]), "n")
+            if gs is False or gn is False:
+                return False, why if gs is False else why2
+            return z3.And(*[g_ for g_ in (gs, gn) if g_ is not True]) if (gs is not True or gn is not True) else True, "a cell is not the grouped record's value"
+
+        pack.add(Obligation(name, lambda tier, name=name, th_g=th_g, judge_g=judge_g: prove_paths(name, th_g, judge_g, lambda m_, p: {"x": model_value(m_, x), "s": model_value(m_, sv)}), replay=lambda w, opts=opts: {"call": "c20_csv_grouped", "args": {"opts": opts}}, functions=FU,
+                            mode="one grouped record of two members, symbolic integer / text cells"))
+
     # ------------------------------------------------------------------ CSV reader
     def th_csv_read(fields_opt):
         def th():
             it.vfs, it.vfs_auto = {}, True
             fp = AbsFile(it, [], mode="r")
             head = [["my name", "2nd", "plain", "_generated"]] if fields_opt is None else []
-            fp.csv_rows = head + [[SStr(sv), "b", "c", "2020-01-02T03:04:05+00:00"], ["", SStr(sw), "z"], ["line1\r\nline2", "cr\ronly", "lf\nonly"]]
+            fp.csv_rows = head + [[SStr(sv), "b", "c", "2020-01-02T03:04:05+00:00"], ["", SStr(sw), "z"], ["line1\r\nline2", "cr\ronly", "lf\nonly"], ["", "", ""]]  # (the last row: every cell empty - still a record)
             fp.preset = True
             it.vfs["/abs/in.csv"] = fp
             rd = it.call(cs.g["CsvfileReader"], ["/abs/in.csv"], {} if fields_opt is None else {"fields": fields_opt})
@@ -140,9 +174,11 @@ def build(tier="quick", seed=0):
     def judge_csv_read(p):
         fl, out = p.value
         want = [("string", "my_name"), ("string", "x_2nd"), ("string", "plain")]
-        if fl != [want, want, want] or len(out) != 3:
-            return False, f"records read: {fl!r}"
+        if fl != [want, want, want, want] or len(out) != 4:
+            return False, f"4 rows (the last one with empty cells only), records read: {fl!r}"
         a, b, c = out[0].attrs, out[1].attrs, out[2].attrs
+        if (it.unbase(out[3].attrs["my_name"]), it.unbase(out[3].attrs["x_2nd"]), it.unbase(out[3].attrs["plain"])) != ("", "", ""):
+            return False, f"the row of empty cells was read back as {out[3].attrs!r}"
         if (it.unbase(c["my_name"]), it.unbase(c["x_2nd"]), it.unbase(c["plain"])) != ("line1\r\nline2", "cr\ronly", "lf\nonly"):
             return False, f"cells with line breaks inside were read back as {(it.unbase(c['my_name']), it.unbase(c['x_2nd']), it.unbase(c['plain']))!r}"
         if it.unbase(a["x_2nd"]) != "b" or it.unbase(a["plain"]) != "c" or it.unbase(b["my_name"]) != "" or it.unbase(b["plain"]) != "z":
